@@ -1105,6 +1105,652 @@ func c05DepthOne(c *mc.Check, st *c05Stats, w *c05World, muts []c05Mut, vars []c
 	return len(jobs), done
 }
 
+// ---------------------------------------------------------------------------------------------------------------------
+// part 2: through the real HandshakeManager (victim V and honest B are real nodes; everybody else is a stub)
+
+const (
+	c05AddrV = "192.0.2.1:4242"
+	c05AddrB = "192.0.2.2:4242"
+	c05AddrT = "192.0.2.3:4242" // underlay address V believes 10.0.0.3 (identity C) lives at
+	c05AddrM = "198.51.100.7:4242"
+)
+
+var c05NetWorldOnce sync.Once
+var c05NetWorld *c05World
+
+// c05GetNetWorld mints the stub identities under the CA of the E4 PKI. C, X, U, K, Y, W all claim C's overlay address
+// 10.0.0.3 (an old expired certificate of C, a revoked one, one issued by a foreign CA ...).
+func c05GetNetWorld() *c05World {
+	c05NetWorldOnce.Do(func() {
+		pk := vGetPKI()
+		addr := func(n string) string {
+			switch n {
+			case "A":
+				return "10.0.0.4/24"
+			case "M":
+				return "10.0.0.7/24"
+			}
+			return "10.0.0.3/24"
+		}
+		w, err := c05Mint(cert.Curve_CURVE25519, "aes", pk.ca, pk.caKey, vtime.Epoch.Add(-24*vtime.Hour), vtime.Epoch.Add(10*365*24*vtime.Hour), addr,
+			func(n string) string {
+				if n == "A" || n == "M" {
+					return "c05" + strings.ToLower(n)
+				}
+				return "c05c"
+			})
+		if err != nil {
+			panic("c05: net world: " + err.Error())
+		}
+		for _, n := range [][2]string{{"V", "10.0.0.1/24"}, {"B", "10.0.0.2/24"}} {
+			leaf := pk.leafFor("c05"+strings.ToLower(n[0]), n[1], "", nil, cert.Version2)
+			full, _ := leaf.crt.Marshal()
+			fp, _ := leaf.crt.Fingerprint()
+			id := &c05Ident{name: n[0], crt: leaf.crt, full: full, pub: leaf.crt.PublicKey(), fp: fp, byTrustedCA: true,
+				nb: vtime.Epoch.Add(-vtime.Hour), na: vtime.Epoch.Add(5 * 365 * 24 * vtime.Hour), holdsKey: true}
+			w.ids[n[0]], w.byFull[string(full)], w.byPub[string(id.pub)] = id, id, id
+		}
+		c05NetWorld = w
+	})
+	return c05NetWorld
+}
+
+type c05NMsg struct {
+	pkt   vpkt
+	stage int
+	prod  string // "V", "B"
+	reply int    // stage 2: pool index of the stage 1 it answers (-1 unknown)
+}
+
+// c05Peer is whoever produced a datagram delivered to a node, as far as the oracle needs to know.
+type c05Peer struct {
+	name   string            // identity holding the private static key (nil-name: nobody)
+	proven []byte            // static public key the producer holds the private key for
+	res    *handshake.Result // stub machine result (responder stubs complete at once)
+	c1, c2 *noise.CipherState
+	mach   *handshake.Machine // stub initiator waiting for the node's stage 2
+	mhs    *noise.HandshakeState
+}
+
+type c05Entry struct {
+	peerCert *cert.CachedCertificate
+	desc     string
+}
+
+type c05NEv struct {
+	K    string // startVB startVT startBV wire stub1 m1 stub2 m2 clock
+	Msg  int
+	Mut  int
+	Msg2 int
+	Id   string
+	Var  int
+	Re   int // stub2/m2: address the answer to the pending index of this other stage-1 pool message (-1: its own)
+}
+
+type c05Net struct {
+	c       *mc.Check
+	st      *c05Stats
+	w       *c05World
+	net     *vnet
+	v, b    *vnode
+	pool    []c05NMsg
+	muts    []c05Mut
+	vars    []c05Variant
+	seen    map[*HostInfo]*c05Entry
+	started map[string]bool
+	late    bool
+	trace   []string
+	trust   map[string]c05Trust
+}
+
+func c05NewNet(t *testing.T, c *mc.Check, st *c05Stats, muts []c05Mut, vars []c05Variant) *c05Net {
+	w := c05GetNetWorld()
+	v := vnodeSpec{Name: "c05v", Networks: "10.0.0.1/24", Udp: c05AddrV, Overrides: m{
+		"static_host_map": m{"10.0.0.2": []string{c05AddrB}, "10.0.0.3": []string{c05AddrT}},
+		"pki":             m{"blocklist": []string{w.ids["K"].fp}},
+	}}
+	b := vnodeSpec{Name: "c05b", Networks: "10.0.0.2/24", Udp: c05AddrB, Overrides: m{"static_host_map": m{"10.0.0.1": []string{c05AddrV}}}}
+	net := vNewNet(t, 5, v, b)
+	n := &c05Net{c: c, st: st, w: w, net: net, v: net.node("c05v"), b: net.node("c05b"), muts: muts, vars: vars,
+		seen: map[*HostInfo]*c05Entry{}, started: map[string]bool{}}
+	n.trust = map[string]c05Trust{"V": {blocked: map[string]bool{w.ids["K"].fp: true}}, "B": {blocked: map[string]bool{}}}
+	return n
+}
+
+func (n *c05Net) node(name string) *vnode {
+	if name == "V" {
+		return n.v
+	}
+	return n.b
+}
+
+func (n *c05Net) violation(sig string, extra map[string]any) {
+	if n.st.viol.Add(1) > 200 {
+		return
+	}
+	d := map[string]any{"level": "HandshakeManager (real nodes V 10.0.0.1 and B 10.0.0.2; C/X/U/K/Y/W/M are stubs; V blocks K's fingerprint and believes 10.0.0.3 is at " + c05AddrT + ")",
+		"history": append([]string{}, n.trace...),
+		"replay":  "build V and B with the E4 assembly, execute `history`; msgN numbers the handshake datagrams V and B put on the wire, in order"}
+	for k, v := range extra {
+		d[k] = v
+	}
+	n.c.Violation(sig, d)
+}
+
+// harvest moves handshake datagrams the nodes emitted into the pool; everything else on the wire is dropped.
+func (n *c05Net) harvest() {
+	n.net.collect()
+	for _, p := range n.net.inflight {
+		var h header.H
+		if h.Parse(p.Data) != nil || h.Type != header.Handshake {
+			continue
+		}
+		mg := c05NMsg{pkt: p, stage: c05Stage(p.Data), prod: "B", reply: -1}
+		if p.From == n.v.udp {
+			mg.prod = "V"
+		}
+		dup := false
+		for _, q := range n.pool {
+			if bytes.Equal(q.pkt.Data, p.Data) && q.pkt.To == p.To {
+				dup = true
+			}
+		}
+		if !dup {
+			n.pool = append(n.pool, mg)
+		}
+	}
+	n.net.inflight = nil
+}
+
+func (n *c05Net) label(e c05NEv) string {
+	switch e.K {
+	case "startVB":
+		return "V starts a handshake to 10.0.0.2 (B)"
+	case "startVT":
+		return "V starts a handshake to 10.0.0.3 (C's address)"
+	case "startBV":
+		return "B starts a handshake to 10.0.0.1 (V)"
+	case "clock":
+		return "clock +2h (Y's certificate expires)"
+	case "wire":
+		l := fmt.Sprintf("deliver msg%d to its destination", e.Msg)
+		if e.Mut > 0 {
+			l += " [" + n.muts[e.Mut].label
+			if n.muts[e.Mut].needs2 {
+				l += fmt.Sprintf(", other = msg%d", e.Msg2)
+			}
+			l += "]"
+		} else if e.Mut < 0 {
+			l += fmt.Sprintf(" [header index := V's pending index of msg%d]", e.Msg2)
+		}
+		return l
+	case "stub1":
+		return "stub " + e.Id + " (real Machine, own credential) sends a stage 1 to V"
+	case "m1":
+		return "M sends a stage 1 to V: " + n.vars[e.Var].label
+	case "stub2":
+		l := fmt.Sprintf("stub %s (real Machine, own credential) answers msg%d towards V", e.Id, e.Msg)
+		if e.Re >= 0 {
+			l += fmt.Sprintf(", addressed to V's pending index of msg%d", e.Re)
+		}
+		return l
+	}
+	l := fmt.Sprintf("M answers msg%d towards V: %s", e.Msg, n.vars[e.Var].label)
+	if e.Re >= 0 {
+		l += fmt.Sprintf(", addressed to V's pending index of msg%d", e.Re)
+	}
+	return l
+}
+
+func (n *c05Net) stubMachine(id *c05Ident, initiator bool, idx uint32) *handshake.Machine {
+	pool := ct.NewTestCAPool(n.w.ca)
+	mach, err := handshake.NewMachine(cert.Version2, id.get, func(c cert.Certificate) (*cert.CachedCertificate, error) {
+		return pool.VerifyCertificate(vtime.Now(), c)
+	}, func() (uint32, error) { return idx, nil }, initiator, header.HandshakeIXPSK0)
+	if err != nil {
+		panic("c05: stub machine: " + err.Error())
+	}
+	return mach
+}
+
+func c05SetIndex(pkt []byte, idx uint32) []byte {
+	x := c05Clone(pkt)
+	if len(x) >= 8 {
+		binary.BigEndian.PutUint32(x[4:8], idx)
+	}
+	return x
+}
+
+// apply executes one event on the real nodes and judges every hostmap entry afterwards.
+func (n *c05Net) apply(e c05NEv) {
+	n.trace = append(n.trace, n.label(e))
+	var toNode string  // node that received a datagram in this event
+	var pkt []byte     // that datagram
+	var peer *c05Peer  // who produced it (nil: a real node's / mutated pool message, resolved by body comparison)
+	from := netip.AddrPort{}
+	M := n.w.ids["M"]
+	pendingIndexOf := func(i int) (uint32, bool) { // V's local index of the pending handshake that sent pool message i
+		hh := n.v.hm.queryVpnIp(n.targetOf(i))
+		if hh == nil || hh.hostinfo == nil || !bytes.Equal(hh.hostinfo.HandshakePacket[handshakePacketStage0], n.pool[i].pkt.Data) {
+			return 0, false
+		}
+		return hh.hostinfo.localIndexId, true
+	}
+	switch e.K {
+	case "startVB":
+		n.started[e.K] = true
+		n.v.hm.StartHandshake(n.b.vpnIP, nil)
+		n.v.settle()
+	case "startVT":
+		n.started[e.K] = true
+		n.v.hm.StartHandshake(netip.MustParseAddr("10.0.0.3"), nil)
+		n.v.settle()
+	case "startBV":
+		n.started[e.K] = true
+		n.b.hm.StartHandshake(n.v.vpnIP, nil)
+		n.b.settle()
+	case "clock":
+		n.late = true
+		vtime.Advance(2 * vtime.Hour)
+	case "wire":
+		src := n.pool[e.Msg]
+		pkt = src.pkt.Data
+		switch {
+		case e.Mut > 0:
+			var other []byte
+			if n.muts[e.Mut].needs2 {
+				other = n.pool[e.Msg2].pkt.Data
+			}
+			pkt = n.muts[e.Mut].f(pkt, other, n.w.d)
+		case e.Mut < 0:
+			if idx, ok := pendingIndexOf(e.Msg2); ok {
+				pkt = c05SetIndex(pkt, idx)
+				n.st.inc("manager: cross-session redirect of a node's stage 2 to another pending handshake")
+			}
+		}
+		from = src.pkt.From
+		toNode = "B"
+		if src.pkt.To == n.v.udp {
+			toNode = "V"
+		}
+	case "stub1":
+		id := n.w.ids[e.Id]
+		mach := n.stubMachine(id, true, 0x0c05c001)
+		var err error
+		if pkt, err = mach.Initiate(nil); err != nil {
+			panic("c05: stub initiate: " + err.Error())
+		}
+		peer = &c05Peer{name: id.name, mach: mach}
+		if id.holdsKey {
+			peer.proven = id.pub
+		}
+		from, toNode = netip.MustParseAddrPort(c05AddrT), "V"
+	case "m1":
+		v := n.vars[e.Var]
+		hs, err := noise.NewHandshakeState(noise.Config{CipherSuite: n.w.ncs, Random: rand.Reader, Pattern: noise.HandshakeIX, Initiator: true,
+			StaticKeypair: noise.DHKey{Private: M.priv, Public: n.w.ids[v.pubOf].pub}, PresharedKey: []byte{}})
+		if err != nil {
+			panic("c05 m1: " + err.Error())
+		}
+		pkt = make([]byte, header.Len, 1024)
+		header.Encode(pkt, header.Version, header.Handshake, header.HandshakeIXPSK0, 0, 1)
+		if pkt, _, _, err = hs.WriteMessage(pkt, n.w.variantPayload(v, 0x0c05aaaa, 0)); err != nil {
+			panic("c05 m1 write: " + err.Error())
+		}
+		peer = &c05Peer{name: "M", mhs: hs}
+		if v.pubOf == "M" {
+			peer.proven = M.pub
+		}
+		from, toNode = netip.MustParseAddrPort(c05AddrM), "V"
+	case "stub2", "m2":
+		s1 := n.pool[e.Msg]
+		from, toNode = s1.pkt.To, "V" // the answer comes from the address V sent its stage 1 to
+		if e.K == "stub2" {
+			id := n.w.ids[e.Id]
+			mach := n.stubMachine(id, false, 0x0c05c002)
+			out, res, err := mach.ProcessPacket(nil, c05Clone(s1.pkt.Data))
+			if err != nil || res == nil {
+				panic(fmt.Sprintf("c05: stub %s cannot answer V's genuine stage 1: %v", id.name, err))
+			}
+			pkt = out
+			peer = &c05Peer{name: id.name, res: res}
+			if id.holdsKey {
+				peer.proven = id.pub
+			}
+		} else {
+			v := n.vars[e.Var]
+			out, c1, c2, ok := n.w.craft2(s1.pkt.Data, M.priv, n.w.ids[v.pubOf].pub, func(ii uint32) []byte { return n.w.variantPayload(v, ii, 0x0c05bbbb) })
+			if !ok {
+				panic("c05: M cannot answer V's genuine stage 1")
+			}
+			pkt = out
+			peer = &c05Peer{name: "M", c1: c1, c2: c2}
+			if v.pubOf == "M" {
+				peer.proven = M.pub
+			}
+		}
+		if e.Re >= 0 {
+			if idx, ok := pendingIndexOf(e.Re); ok {
+				pkt = c05SetIndex(pkt, idx)
+				n.st.inc("manager: cross-session answer addressed to another pending handshake")
+			}
+		}
+	}
+	if toNode != "" {
+		n.st.deliver.Add(1)
+		n.node(toNode).deliver(from, pkt)
+	}
+	n.harvest()
+	created := n.judge(e, toNode, pkt, peer)
+	what := e.K
+	switch e.K {
+	case "stub1", "stub2":
+		what = "stub " + e.Id + " " + map[string]string{"stub1": "sends a stage 1", "stub2": "answers V's stage 1"}[e.K]
+		if e.Re >= 0 {
+			what += " (addressed to another pending handshake)"
+		}
+	case "m1", "m2":
+		what = "M " + map[string]string{"m1": "sends a stage 1", "m2": "answers V's stage 1"}[e.K] + " [" + n.vars[e.Var].label + "]"
+		if e.Re >= 0 {
+			what += " (addressed to another pending handshake)"
+		}
+	case "wire":
+		cl := "header index := another pending handshake"
+		if e.Mut >= 0 {
+			cl = n.muts[e.Mut].class
+		}
+		what = fmt.Sprintf("wire stage %d to %s [%s]", n.pool[e.Msg].stage, toNode, cl)
+	}
+	if n.late {
+		what += " (late)"
+	}
+	n.st.inc(fmt.Sprintf("manager: %s -> %d new hostmap entries", what, created))
+}
+
+// targetOf: overlay address V (or B) was handshaking to when it sent pool message i.
+func (n *c05Net) targetOf(i int) netip.Addr {
+	switch n.pool[i].pkt.To.String() {
+	case c05AddrB:
+		return n.b.vpnIP
+	case c05AddrT:
+		return netip.MustParseAddr("10.0.0.3")
+	}
+	return n.v.vpnIP
+}
+
+func (n *c05Net) entries(nd *vnode) []*HostInfo {
+	hmap := nd.f.hostMap
+	hmap.RLock()
+	defer hmap.RUnlock()
+	set := map[*HostInfo]bool{}
+	for _, hi := range hmap.Indexes {
+		set[hi] = true
+	}
+	for _, hi := range hmap.Hosts {
+		set[hi] = true
+	}
+	for _, l := range hmap.moreHosts {
+		for _, hi := range l {
+			set[hi] = true
+		}
+	}
+	for _, hi := range hmap.RemoteIndexes {
+		set[hi] = true
+	}
+	var out []*HostInfo
+	for hi := range set {
+		out = append(out, hi)
+	}
+	sort.Slice(out, func(i, j int) bool { return out[i].localIndexId < out[j].localIndexId })
+	return out
+}
+
+// judge evaluates the property on every hostmap entry of both real nodes.
+func (n *c05Net) judge(e c05NEv, toNode string, pkt []byte, peer *c05Peer) (created int) {
+	d := n.w.d
+	for _, nn := range []string{"V", "B"} {
+		nd := n.node(nn)
+		for _, hi := range n.entries(nd) {
+			if old := n.seen[hi]; old != nil {
+				if hi.ConnectionState == nil || hi.ConnectionState.peerCert != old.peerCert {
+					n.violation("HandshakeManager: the peer certificate of an established hostmap entry was replaced", map[string]any{"node": nn, "entry": old.desc})
+				}
+				continue
+			}
+			ent := &c05Entry{desc: fmt.Sprintf("%v local index %d", hi.vpnAddrs, hi.localIndexId)}
+			n.seen[hi] = ent
+			created++
+			n.st.results.Add(1)
+			if hi.ConnectionState == nil || hi.ConnectionState.peerCert == nil || hi.ConnectionState.peerCert.Certificate == nil {
+				n.violation("HandshakeManager: hostmap entry without a verified peer certificate", map[string]any{"node": nn, "entry": ent.desc})
+				continue
+			}
+			cs := hi.ConnectionState
+			ent.peerCert = cs.peerCert
+			rc := cs.peerCert.Certificate
+			role := c05RoleName(cs.initiator)
+			// (a) trusted now, under this node's trust configuration
+			id, why := n.w.trustRule(rc, vtime.Now(), n.trust[nn])
+			ent.desc += " peer=" + c05IdName(id)
+			if why != "" {
+				n.violation("HandshakeManager: hostmap entry ("+role+" side) with a peer certificate the trust rule refuses: "+why, map[string]any{"node": nn, "entry": ent.desc})
+			}
+			if nn != toNode {
+				n.violation("HandshakeManager: a hostmap entry appeared on a node that received no datagram", map[string]any{"node": nn, "entry": ent.desc})
+				continue
+			}
+			// (b) bound to the static key of the exchange that created it
+			var proven []byte
+			prodName := ""
+			if !cs.initiator {
+				_, sOff, pOff := c05Regions(1, d, len(pkt))
+				onWire := []byte(nil)
+				if len(pkt) >= pOff {
+					onWire = pkt[sOff:pOff]
+				}
+				if !bytes.Equal(rc.PublicKey(), onWire) {
+					n.violation("HandshakeManager: hostmap entry (responder side) whose peer certificate does not carry the static key of the Noise exchange", map[string]any{
+						"node": nn, "entry": ent.desc, "static_key_on_the_wire": hex.EncodeToString(onWire), "certificate_key": hex.EncodeToString(rc.PublicKey())})
+				}
+			} else {
+				switch {
+				case peer != nil:
+					proven, prodName = peer.proven, peer.name
+				default:
+					for _, mg := range n.pool {
+						if mg.stage == 2 && len(pkt) >= header.Len && bytes.Equal(mg.pkt.Data[header.Len:], pkt[header.Len:]) {
+							proven, prodName = n.w.ids[mg.prod].pub, mg.prod
+						}
+					}
+				}
+				if proven == nil {
+					n.violation("HandshakeManager: hostmap entry (initiator side) created by a message whose sender holds no private key for the transmitted static key", map[string]any{"node": nn, "entry": ent.desc, "sender": prodName})
+				} else if !bytes.Equal(rc.PublicKey(), proven) {
+					n.violation("HandshakeManager: hostmap entry (initiator side) whose peer certificate does not carry the static key the sender proved to hold", map[string]any{
+						"node": nn, "entry": ent.desc, "sender": prodName})
+				}
+			}
+			if holder := n.w.byPub[string(rc.PublicKey())]; holder == nil || !bytes.Equal(holder.full, mustMarshal(rc)) {
+				n.violation("HandshakeManager: hostmap entry reports a certificate that is not the certificate issued for that key", map[string]any{"node": nn, "entry": ent.desc})
+			}
+			// (c) the tunnel keys are shared with the authenticated peer
+			n.pairing(nn, nd, hi, id, pkt, peer)
+			n.st.inc("manager: new hostmap entry on " + nn + " (" + role + " side) for peer " + c05IdName(id))
+		}
+	}
+	return created
+}
+
+// pairing: whoever holds the other end of the new tunnel is the identity the entry reports.
+func (n *c05Net) pairing(nn string, nd *vnode, hi *HostInfo, id *c05Ident, pkt []byte, peer *c05Peer) {
+	cs := hi.ConnectionState
+	const ctr = uint64(1) << 40
+	check := func(pe, pd noiseutil.CipherState, who string) {
+		if !c05Opens(cs.eKey, pd, ctr) || !c05Opens(pe, cs.dKey, ctr+1) {
+			n.violation("HandshakeManager: tunnel keys are not shared with the peer the hostmap entry reports", map[string]any{"node": nn, "peer": who, "reported": c05IdName(id)})
+			return
+		}
+		if id == nil || id.name != who {
+			n.violation("HandshakeManager: the party holding the tunnel keys is not the identity the hostmap entry reports", map[string]any{"node": nn, "key_holder": who, "reported": c05IdName(id)})
+		}
+		n.st.inc("manager: pairing verified between " + nn + " and " + who)
+	}
+	switch {
+	case peer != nil && peer.res != nil: // stub responder
+		check(noiseutil.NewCipherState(peer.res.EKey, peer.res.Cipher), noiseutil.NewCipherState(peer.res.DKey, peer.res.Cipher), peer.name)
+	case peer != nil && peer.c1 != nil: // M answered as responder
+		check(noiseutil.NewCipherState(peer.c2, n.w.ncs), noiseutil.NewCipherState(peer.c1, n.w.ncs), "M")
+	case peer != nil && (peer.mach != nil || peer.mhs != nil): // stub initiator: feed it the node's stage 2
+		s2 := hi.HandshakePacket[handshakePacketStage2]
+		if s2 == nil {
+			return
+		}
+		if peer.mach != nil {
+			_, res, err := peer.mach.ProcessPacket(nil, c05Clone(s2))
+			if err != nil || res == nil {
+				if n.w.ids[peer.name].holdsKey {
+					n.violation("HandshakeManager: the honest stub initiator cannot complete on the node's stage 2", map[string]any{"node": nn, "stub": peer.name, "error": fmt.Sprint(err)})
+				}
+				return
+			}
+			if vid, _ := n.w.trustRule(res.RemoteCert.Certificate, vtime.Now(), c05Trust{}); vid == nil || vid.name != nn {
+				n.violation("two sides completed on the same bytes but do not report each other's certificates", map[string]any{"node": nn, "stub": peer.name, "stub_reports": c05IdName(vid)})
+			}
+			check(noiseutil.NewCipherState(res.EKey, res.Cipher), noiseutil.NewCipherState(res.DKey, res.Cipher), peer.name)
+		} else {
+			_, c1, c2, err := peer.mhs.ReadMessage(nil, s2[header.Len:])
+			if err != nil || c1 == nil {
+				if peer.proven != nil {
+					n.violation("HandshakeManager: M (acting as itself) cannot complete on the node's stage 2", map[string]any{"node": nn, "error": fmt.Sprint(err)})
+				} else {
+					n.st.inc("manager: M cannot use the tunnel created with a static key it holds no private key for")
+				}
+				return
+			}
+			check(noiseutil.NewCipherState(c1, n.w.ncs), noiseutil.NewCipherState(c2, n.w.ncs), "M")
+		}
+	default: // real node on the other side: find its entry for the same bytes
+		other := n.b
+		on := "B"
+		if nn == "B" {
+			other, on = n.v, "V"
+		}
+		var mine []byte
+		if cs.initiator {
+			if len(pkt) > header.Len {
+				mine = pkt[header.Len:]
+			}
+		} else if s2 := hi.HandshakePacket[handshakePacketStage2]; len(s2) > header.Len {
+			mine = s2[header.Len:]
+		}
+		for _, ho := range n.entries(other) {
+			s2 := ho.HandshakePacket[handshakePacketStage2]
+			if ho.ConnectionState == nil || ho.ConnectionState.peerCert == nil || len(s2) <= header.Len || mine == nil {
+				continue
+			}
+			match := bytes.Equal(s2[header.Len:], mine)
+			if !cs.initiator { // we produced the stage 2; the other side consumed it as initiator: it has no copy, match by index pair
+				match = ho.ConnectionState.initiator && ho.remoteIndexId == hi.localIndexId && ho.localIndexId == hi.remoteIndexId
+			}
+			if !match {
+				continue
+			}
+			oid, _ := n.w.trustRule(ho.ConnectionState.peerCert.Certificate, vtime.Now(), c05Trust{})
+			if id == nil || id.name != on || oid == nil || oid.name != nn {
+				n.violation("two sides completed on the same bytes but do not report each other's certificates", map[string]any{"node": nn, "reports": c05IdName(id), "other_node": on, "other_reports": c05IdName(oid)})
+			}
+			check(ho.ConnectionState.eKey, ho.ConnectionState.dKey, on)
+		}
+	}
+}
+
+func (n *c05Net) key() string {
+	view := func(nd *vnode) string {
+		var p []string
+		for _, hi := range n.entries(nd) {
+			if e := n.seen[hi]; e != nil {
+				init := hi.ConnectionState != nil && hi.ConnectionState.initiator
+				p = append(p, fmt.Sprintf("%v/%v/%s", hi.vpnAddrs, init, e.desc[strings.LastIndex(e.desc, " ")+1:]))
+			}
+		}
+		sort.Strings(p)
+		return strings.Join(p, ",") + " pending=" + strings.Join(nd.pendingAddrs(), ",")
+	}
+	var ps []string
+	for _, mg := range n.pool {
+		ps = append(ps, fmt.Sprintf("s%d %s->%s", mg.stage, mg.prod, mg.pkt.To))
+	}
+	return fmt.Sprintf("V[%s] B[%s] pool[%s] late=%v", view(n.v), view(n.b), strings.Join(ps, ";"), n.late)
+}
+
+func (n *c05Net) menu(full bool) []c05NEv {
+	var out []c05NEv
+	for _, k := range []string{"startVB", "startVT", "startBV"} {
+		if !n.started[k] {
+			out = append(out, c05NEv{K: k, Msg: -1, Msg2: -1, Re: -1})
+		}
+	}
+	if !n.late {
+		out = append(out, c05NEv{K: "clock", Msg: -1, Msg2: -1, Re: -1})
+	}
+	stubs := []string{"C", "X", "U", "K", "Y", "W"}
+	for _, id := range stubs {
+		out = append(out, c05NEv{K: "stub1", Id: id, Msg: -1, Msg2: -1, Re: -1})
+	}
+	for k, v := range n.vars {
+		if full || v.rep {
+			out = append(out, c05NEv{K: "m1", Var: k, Msg: -1, Msg2: -1, Re: -1})
+		}
+	}
+	var vStage1 []int
+	for i, mg := range n.pool {
+		if mg.stage == 1 && mg.prod == "V" {
+			vStage1 = append(vStage1, i)
+		}
+	}
+	for i, mg := range n.pool {
+		out = append(out, c05NEv{K: "wire", Msg: i, Msg2: -1, Re: -1})
+		if mg.pkt.To != n.v.udp {
+			continue
+		}
+		for k, mu := range n.muts {
+			if k == 0 || (!full && !mu.rep) {
+				continue
+			}
+			if !mu.needs2 {
+				out = append(out, c05NEv{K: "wire", Msg: i, Mut: k, Msg2: -1, Re: -1})
+				continue
+			}
+			for j := range n.pool {
+				if j != i && (full || n.pool[j].stage == mg.stage) {
+					out = append(out, c05NEv{K: "wire", Msg: i, Mut: k, Msg2: j, Re: -1})
+				}
+			}
+		}
+		if mg.stage == 2 {
+			for _, j := range vStage1 {
+				out = append(out, c05NEv{K: "wire", Msg: i, Mut: -1, Msg2: j, Re: -1})
+			}
+		}
+	}
+	for _, i := range vStage1 {
+		for _, id := range stubs {
+			out = append(out, c05NEv{K: "stub2", Id: id, Msg: i, Msg2: -1, Re: -1})
+		}
+		for k, v := range n.vars {
+			if full || v.rep {
+				out = append(out, c05NEv{K: "m2", Var: k, Msg: i, Msg2: -1, Re: -1})
+			}
+		}
+		for _, j := range vStage1 {
+			if j != i {
+				out = append(out, c05NEv{K: "stub2", Id: "C", Msg: i, Msg2: -1, Re: j}, c05NEv{K: "m2", Var: 0, Msg: i, Msg2: -1, Re: j})
+			}
+		}
+	}
+	return out
+}
+
 func TestVerifC05(t *testing.T) {
 	c := mc.Begin(t, "C05", "model_checking")
 	defer c.End()
@@ -1204,6 +1850,39 @@ func TestVerifC05(t *testing.T) {
 	}
 	c.Add("traces_validated_against_impl", int64(depth1))
 	c.Add("transitions", int64(depth1))
+
+	// ---- part 2: the real HandshakeManager (process-global clock and randomness: strictly serial)
+	machineStates := c.Counter("states").Load()
+	full2 := c.Thorough()
+	runNet := func(hist []c05NEv) (string, string, []c05NEv) {
+		n := c05NewNet(t, c, st, muts, vars)
+		defer n.net.close()
+		for _, e := range hist {
+			n.apply(e)
+		}
+		st.histories.Add(1)
+		return n.key(), n.net.wireHash(), n.menu(full2)
+	}
+	probe := []c05NEv{{K: "startVB", Msg: -1, Msg2: -1, Re: -1}, {K: "wire", Msg: 0, Msg2: -1, Re: -1}, {K: "wire", Msg: 1, Msg2: -1, Re: -1}, {K: "stub1", Id: "C", Msg: -1, Msg2: -1, Re: -1}}
+	k1, w1, _ := runNet(probe)
+	k2, w2, _ := runNet(probe)
+	if k1 != k2 || w1 != w2 {
+		c.Broken("manager level: replay is not deterministic:\n%s %s\n%s %s", k1, w1, k2, w2)
+	}
+	if !strings.Contains(k1, "peer=B") || !strings.Contains(k1, "peer=C") || !strings.Contains(k1, "peer=V") {
+		c.Broken("manager level: the honest handshakes of the probe history do not complete: %s", k1)
+	}
+	nl := (&c05Net{muts: muts, vars: vars}).label
+	res2 := mc.BFSReplay(c, mc.BFSConfig[c05NEv]{MaxDepth: mc.Pick(c, 3, 5), Workers: 1, Label: nl,
+		Stop: func() bool { return st.viol.Load() > 100 || c.OutOfTime() },
+		Run: func(hist []c05NEv) (string, []c05NEv) {
+			k, _, mn := runNet(hist)
+			return k, mn
+		}})
+	c.Set("manager_states", res2.States)
+	c.Set("manager_transitions", res2.Transitions)
+	c.Set("manager_depth", res2.MaxDepth)
+	c.Set("machine_states", machineStates)
 
 	// ---- evidence
 	c.Set("machine_casts", len(jobs))
